@@ -173,6 +173,9 @@ func genRoots(fam []string, p int64) generator {
 		P := big.NewInt(p)
 		E := func(num, den *big.Int, d int) { emitRoot(emit, r, fam, num, den, d, thorough) }
 		EA := func(num, den *big.Int, d int) { emitRoot(emit, r, fam, num, den, d, true) }
+		// numerator and denominator of more than a thousand bits each, more than 300 digits deep (one radicand, every
+		// version: the model needs about half a minute for a cube root of this size)
+		EA(r.BigDigits(325), r.BigDigits(312), 318)
 		// roots whose leading digits cross machine-word boundaries (2^31, 2^32, 2^53, 2^63, 2^64)
 		for _, w := range []uint{31, 32, 53, 63, 64} {
 			b := new(big.Int).Lsh(one, w)
